@@ -29,7 +29,8 @@ def run(ctx):
     hold = ("C02_1x3_hold_d4" if thorough else "C02_1x3_hold_q", 1, 3, "bfs", None, None)
     runs += [hold, ("C02_1x3_sim", 1, 3, "simulate", 60 if not thorough else 300, 8)]
     if thorough:
-        runs += [("C02_2x1_d4", 2, 1, "bfs", None, None), ("C02_2x2_d3", 2, 2, "bfs", None, None)]
+        # (C02_2x2_d3 as BFS is 1.4 M histories x profiles: too slow to finish; sampled instead)
+        runs += [("C02_2x1_d4", 2, 1, "bfs", None, None), ("C02_2x2_d3", 2, 2, "simulate", 1500, 3)]
     for cfg, K, M, mode, num, depth in runs:
         r = ctx.generate("RoaringHist", cfg, mode=mode, num=num, depth=depth, timeout=1200)
         env = {"VERIF_K": K, "VERIF_M": M}
